@@ -443,7 +443,319 @@ def rule_r14(repo):
     return res
 
 
+def rule_r15(repo):
+    """A comparison function walks two terms in parallel: in a branch chosen by the head of the first
+    (`tm1.is_plus()`) it reads the parts of the second (`tm2.arg1`).  The function itself shows that it does not
+    trust its caller about the first term, so the second one needs the same test - otherwise `x + y` is compared
+    part by part with `x - y` and found equal."""
+    from .c18_shape import ShapeAnalysis
+    res = RuleResult('C18.R15', 'a function that compares two terms part by part tests the head of both before it reads their parts', floor=1)
+    n = 0
+    for f in mr.verit_eval_side_functions(repo):
+        if f.parent is not None or f.name in ('eval', '__init__'):
+            continue
+        ps = [p for p in f.params() if p != 'self']
+        if len(ps) < 2:
+            continue
+        # a checker: it answers True / False
+        if not any(isinstance(r, ast.Return) and isinstance(r.value, ast.Constant) and isinstance(r.value.value, bool) for r in ast.walk(f.node)) and \
+                not any(isinstance(r, ast.Return) and isinstance(r.value, (ast.BoolOp, ast.Compare)) for r in ast.walk(f.node)):
+            continue
+        sa_ = ShapeAnalysis(f.node, ps)
+        bad = []
+        checked = 0
+        for a, base, canon in sa_.sites():
+            roots = {c.split('.')[0].split('[')[0] for c in canon}
+            if len(roots) != 1:
+                continue
+            root = next(iter(roots))
+            if root not in ps:
+                continue
+            r = sa_.check(a, canon)
+            if r is not False:
+                checked += r is True
+                continue
+            # is the same position of another parameter tested on every path to this site?
+            for other in ps:
+                if other == root:
+                    continue
+                twin = {other + c[len(root):] for c in canon}
+                edges = sa_.edges_for(twin)
+                node = sa_.cfg.node_for(a)
+                if edges and node is not None and sa_.cfg.path_avoiding_consistent(node, skip_edges=edges, atom_key=sa_.atom_key) is None:
+                    bad.append((a, other))
+                    break
+        if not bad and not checked:
+            continue
+        n += 1
+        res.add('%s :: %s :: both-heads-tested' % (f.module.rel, f.qualname), not bad,
+                'every part of a parameter is read under a test of that parameter' if not bad else
+                '; '.join('line %d reads `%s` under a test of the head of `%s` only' % (a.lineno, src(a, 30), o) for a, o in bad[:4]) +
+                ' -- a term with another head in the same positions is compared part by part and found equal (p & x + y = 0 <--> p & x - y = 0 was accepted)',
+                '%s:%d' % (f.module.rel, bad[0][0].lineno if bad else f.node.lineno))
+    res.info['functions'] = n
+    return res
+
+
+def rule_r16(repo):
+    """A check that runs over the pairs of a mapping (variable -> the value it must have) has to look at both
+    components: a loop `for v, t in m.items()` that never reads `t` checks that *some* equation for v exists, not
+    that it is the equation v = t."""
+    res = RuleResult('C18.R16', 'a checking loop over the pairs of a mapping reads both components', floor=1)
+    for f in mr.verit_eval_side_functions(repo):
+        if f.parent is not None:
+            continue
+        loops = [l for l in ast.walk(f.node) if isinstance(l, ast.For) and isinstance(l.target, (ast.Tuple, ast.List)) and
+                 isinstance(l.iter, ast.Call) and call_attr(l.iter) == 'items' and len(l.target.elts) == 2]
+        if not loops:
+            continue
+        bad = []
+        for l in loops:
+            used = set()
+            for st in l.body:
+                for x in ast.walk(st):
+                    if isinstance(x, ast.Name) and isinstance(x.ctx, ast.Load):
+                        used.add(x.id)
+            # a component that is only handed to a local helper counts as read when the helper reads that parameter
+            for nm in list(used):
+                occ = [x for st in l.body for x in ast.walk(st) if isinstance(x, ast.Name) and x.id == nm and isinstance(x.ctx, ast.Load)]
+                calls = [c for st in l.body for c in ast.walk(st) if isinstance(c, ast.Call) and isinstance(c.func, ast.Name) and c.func.id in f.nested]
+                passed = {}
+                for c in calls:
+                    for i, a in enumerate(c.args):
+                        if isinstance(a, ast.Name) and a.id == nm:
+                            passed[id(a)] = (c.func.id, i)
+                if occ and all(id(x) in passed for x in occ):
+                    really = False
+                    for x in occ:
+                        h, i = passed[id(x)]
+                        hp = f.nested[h].params()
+                        if i < len(hp) and any(isinstance(y, ast.Name) and y.id == hp[i] and isinstance(y.ctx, ast.Load) for y in ast.walk(f.nested[h].node)):
+                            really = True
+                    if not really:
+                        used.discard(nm)
+            rejects = any(isinstance(x, ast.Raise) for st in l.body for x in ast.walk(st))
+            for t in l.target.elts:
+                if isinstance(t, ast.Name) and not t.id.startswith('_') and t.id not in used and rejects:
+                    bad.append((l, t.id))
+        res.add('%s :: %s :: pairs-read' % (f.module.rel, f.qualname), not bad,
+                '%d loop(s) over items(), both components read' % len(loops) if not bad else
+                '; '.join('line %d `for %s in %s`: `%s` is never read' % (l.lineno, src(l.target, 20), src(l.iter, 30), nm) for l, nm in bad[:4]) +
+                ' -- the loop rejects when no entry is found for the key, but never compares the entry with the value of the pair '
+                '((!x. x = 1 --> P x) <--> (5 = 1 --> P 5) was accepted with x -> 5)', '%s:%d' % (f.module.rel, (bad[0][0] if bad else loops[0]).lineno))
+    return res
+
+
+def rule_r17(repo):
+    """`found = False; for c in cs: if ..: found = True; break` followed by `if not found: raise` decides for
+    one element of an outer loop.  (a) the flag must be reset on every path from one outer iteration to the next
+    test, or the `True` of an earlier element answers for a later one; (b) the outer loop must not be left by a
+    `break` of its own, or the remaining elements are not examined at all."""
+    res = RuleResult('C18.R17', 'a found-flag that decides per element is reset per element, and the loop over the elements is not left early', floor=1)
+    for f in mr.verit_eval_side_functions(repo):
+        if f.parent is not None:
+            continue
+        cfg = None
+        bad = []
+        n_loops = 0
+        for outer in ast.walk(f.node):
+            if not isinstance(outer, ast.For):
+                continue
+            # a top-level `if not <flag>: raise` in the body
+            flags = []
+            for st in outer.body:
+                if isinstance(st, ast.If) and isinstance(st.test, ast.UnaryOp) and isinstance(st.test.op, ast.Not) and isinstance(st.test.operand, ast.Name) and \
+                        st.body and isinstance(st.body[-1], ast.Raise):
+                    flags.append((st.test.operand.id, st))
+            if not flags:
+                continue
+            n_loops += 1
+            cfg = cfg or cfg_of(f.node)
+            for flag, test_stmt in flags:
+                sets = [n for n in cfg.nodes if n.kind == 'stmt' and isinstance(n.ast, ast.Assign) and any(is_name(t, flag) for t in n.ast.targets)]
+                trues = [n for n in sets if isinstance(n.ast.value, ast.Constant) and n.ast.value.value is True and
+                         any(n.ast is x for st in outer.body for x in ast.walk(st))]
+                tnode = cfg.node_for(test_stmt.test.operand) or cfg.node_for(test_stmt.test)
+                inode = next((n for n in cfg.nodes if n.kind == 'iter' and n.ast is outer), None)
+                if tnode is None or inode is None:
+                    continue
+                for a in trues:
+                    others = [n for n in sets if n is not a]
+                    r1 = cfg.reach_from([b for b, _l in a.succ], skip_nodes=others)
+                    if inode.id in r1:
+                        r2 = cfg.reach_from([b for b, l in inode.succ if l == 'loop'], skip_nodes=sets)
+                        if tnode.id in r2:
+                            bad.append('line %d: `%s = True` of one element reaches the test `if not %s` (line %d) of the next one without a reset' % (
+                                a.lineno, flag, flag, test_stmt.lineno))
+                            break
+            # (b) a break that belongs to the outer loop itself
+            def own_breaks(stmts):
+                out = []
+                for st in stmts:
+                    if isinstance(st, ast.Break):
+                        out.append(st)
+                    elif isinstance(st, (ast.For, ast.While)):
+                        out += own_breaks(st.orelse)
+                    elif isinstance(st, ast.If):
+                        out += own_breaks(st.body) + own_breaks(st.orelse)
+                    elif isinstance(st, ast.Try):
+                        out += own_breaks(st.body) + own_breaks(st.orelse) + own_breaks(st.finalbody)
+                    elif isinstance(st, ast.With):
+                        out += own_breaks(st.body)
+                return out
+            for b in own_breaks(outer.body):
+                bad.append('line %d: `break` leaves the loop over the elements (line %d): the elements after this one are never tested' % (b.lineno, outer.lineno))
+        if not n_loops:
+            continue
+        res.add('%s :: %s :: flag-per-element' % (f.module.rel, f.qualname), not bad,
+                '%d per-element decision loop(s)' % n_loops if not bad else '; '.join(bad[:4]), f.loc)
+    return res
+
+
+def _negative_literal(f, e):
+    """e denotes the argument of a negated literal of the clause (args[k] = ~e, or a disjunct ~e of args[k]):
+    the quantified formula occurs negatively, and using its body for all values of the variables is sound"""
+    from .c18_shape import Paths
+    ps = f.params()
+    paths = Paths(f.node, ps[1:3])
+    canon = paths.canon(e)
+    tested = {}
+    for c in ast.walk(f.node):
+        if isinstance(c, ast.Call) and isinstance(c.func, ast.Attribute) and c.func.attr in ('is_not', 'is_disj') and not c.args:
+            for q in paths.canon(c.func.value):
+                tested.setdefault(q, set()).add(c.func.attr)
+    import re
+
+    def negative(p):
+        if not p.endswith('.arg'):
+            return False
+        q = p[:-len('.arg')]
+        if 'is_not' not in tested.get(q, ()):
+            return False
+        # q is args[k], or a disjunct below it
+        while not re.match(r'^%s\[(\d+|\*)\]$' % re.escape(ps[1]), q):
+            m = re.match(r'^(.*)\.(arg1|arg)$', q)
+            if not m or 'is_disj' not in tested.get(m.group(1), ()):
+                return False
+            q = m.group(1)
+        return True
+    return bool(canon) and all(negative(p) for p in canon)
+
+
+def rule_r18(repo):
+    """An evaluator that strips the quantifiers of a literal and goes on with the body alone has dropped the
+    bound variables: the body may mention them, and comparing it with an unquantified term then identifies a
+    bound variable with a free one of the same name ((!x. x > 0) <--> x > 0).  The list of stripped variables
+    must be examined (occurrence test, comparison with the other side) unless the body is only compared with a
+    constant."""
+    res = RuleResult('C18.R18', 'the variables of stripped quantifiers are examined before the body is used alone', floor=1)
+    STRIP = ('strip_quant', 'strip_forall', 'strip_exists')
+    for mi in macro_index(repo):
+        if mi.eval is None or not mr.verit_macros(mi):
+            continue
+        f = mi.eval
+        sites = [a for a in ast.walk(f.node) if isinstance(a, ast.Assign) and isinstance(a.value, ast.Call) and call_attr(a.value) in STRIP and
+                 isinstance(a.targets[0], (ast.Tuple, ast.List)) and len(a.targets[0].elts) == 2]
+        if not sites:
+            continue
+        bad = []
+        for a in sites:
+            vs, body = a.targets[0].elts
+            if not isinstance(vs, ast.Name) or not isinstance(body, ast.Name):
+                continue
+            loads = [x for x in ast.walk(f.node) if isinstance(x, ast.Name) and x.id == vs.id and isinstance(x.ctx, ast.Load)]
+            if loads and not vs.id.startswith('_'):
+                continue
+            if _negative_literal(f, a.value.func.value):
+                continue      # ~(!xs. body) as a literal of the clause: dropping the quantifiers is instantiation
+            # the body is only compared with the constants true / false
+            uses = [x for x in ast.walk(f.node) if isinstance(x, ast.Compare) and any(is_name(y, body.id) for y in [x.left] + x.comparators)]
+            only_const = uses and all(all(is_name(y, body.id) or (isinstance(y, ast.Name) and y.id in ('true', 'false')) or
+                                          (isinstance(y, (ast.Tuple, ast.List)) and all(isinstance(z, ast.Name) and z.id in ('true', 'false') for z in y.elts))
+                                          for y in [x.left] + x.comparators) for x in uses)
+            other = [x for x in ast.walk(f.node) if isinstance(x, ast.Name) and x.id == body.id and isinstance(x.ctx, ast.Load)]
+            if only_const and len(other) == len(uses):
+                continue
+            bad.append(a)
+        res.add('%s :: eval :: stripped-variables-examined' % mi.key, not bad,
+                '%d strip site(s); the variable lists are read' % len(sites) if not bad else
+                'line %d `%s`: the list of bound variables is thrown away and the body is used alone - a bound variable that occurs in the body '
+                'is identified with a free variable of the same name ((!x. x > 0) <--> x > 0 was accepted)' % (bad[0].lineno, src(bad[0], 50)),
+                '%s:%d' % (f.module.rel, (bad[0] if bad else sites[0]).lineno))
+    return res
+
+
+R19_FLOOR_SITES = 70
+
+
+def rule_r19(repo):
+    """Pattern-checking evaluators (sa/propeval.py): for every accept site whose conditions are tests of
+    connectives / arithmetic operators and comparisons of parts, the implication premises --> clause must hold
+    for every truth value (and every small integer) of the parts the conditions leave open."""
+    from ..propeval import PropEval, counterexample
+    from ..truthtable import show
+    res = RuleResult('C18.R19', 'an evaluator that accepts by pattern accepts only clauses that follow from the premises for every value of the unconstrained parts', floor=45)
+    sites = analysed = 0
+    for mi in macro_index(repo):
+        if mi.eval is None or not mr.verit_macros(mi):
+            continue
+        f = mi.eval
+        ps = f.params()
+        if len(ps) < 2:
+            continue
+        pe = PropEval(f.node, ps[1:3]).run()
+        n_acc = [r for r in ast.walk(f.node) if isinstance(r, ast.Return) and pe.is_accept(r)]
+        sites += len(n_acc)
+        by_line = {}
+        for ln, case, cl, prem in pe.accepts:
+            by_line.setdefault(ln, []).append((case, cl, prem))
+        analysed += len(by_line)
+        for ln, cases in sorted(by_line.items()):
+            bad = None
+            for case, cl, prem in cases:
+                ce = counterexample(cl, prem)
+                if ce is not None and ce not in ('too-many', 'ill-typed'):
+                    bad = (case, cl, prem, ce)
+                    break
+            key = '%s :: eval :: accept@%s' % (mi.key, src(next(r for r in n_acc if r.lineno == ln).value, 40) + '#%d' % sorted(by_line).index(ln))
+            if bad:
+                case, cl, prem, ce = bad
+                res.add(key, False, 'line %d accepts  %s |- %s  (pattern: %s), which fails for %s' % (
+                    ln, ' ; '.join(show(p) for p in prem) or '(no premise)', show(cl), case.describe(),
+                    ', '.join('%s=%s' % kv for kv in sorted(ce.items()))), '%s:%d' % (f.module.rel, ln))
+            else:
+                res.add(key, True, '%d pattern(s), each a consequence of the premises for all values of its parts' % len(cases), '%s:%d' % (f.module.rel, ln))
+    res.info['accept_sites'] = sites
+    res.info['accept_sites_analysed'] = analysed
+    need(analysed >= R19_FLOOR_SITES, 'C18.R19: only %d accept sites could be analysed (confirmed: %d)' % (analysed, R19_FLOOR_SITES))
+    return res
+
+
+def converter_rule(repo, rid, targets, identity, floor):
+    """sa/truthtable.py: every case of a connective converter returns the boolean function its conditions describe"""
+    from ..truthtable import Evaluator, counterexample, show
+    res = RuleResult(rid, 'every case of a normal-form conversion returns a term with the truth table of the case it matched', floor=floor)
+    for rel, name in targets:
+        f = repo.func(rel, name)
+        ev = Evaluator(f.node, f.params()[0], identity).run()
+        need(ev.cases, '%s: no case of %s could be analysed' % (rel, name))
+        for ln, facts, pat, val in ev.cases:
+            ce = counterexample(pat, val)
+            ok = ce is None or ce == 'too-many'
+            res.add('%s :: %s :: case(%s)' % (rel, name, facts or 'any'), ok,
+                    '%s  ==  %s' % (show(pat), show(val)) if ok else
+                    'line %d: for %s it returns %s, which differs at %s' % (ln, show(pat), show(val), ', '.join('%s=%s' % kv for kv in sorted(ce.items()))),
+                    '%s:%d' % (rel, ln), nontrivial=pat != val)
+        res.info.setdefault('not_analysed', []).extend('%s:%d %s' % (rel, ln, why) for ln, why in ev.skipped)
+    return res
+
+
+def rule_r20(repo):
+    return converter_rule(repo, 'C18.R20', [('smt/veriT/verit_macro.py', 'get_cnf')], {'get_cnf'}, floor=8)
+
+
 def rules(repo):
     r1 = mr.zip_rule(repo, 'C18.R1', mr.verit_eval_side_functions(repo), floor=9)
     r2 = mr.hyps_rule(repo, 'C18.R2', mr.verit_macros, floor=80)
-    return [r1, r2, rule_r3(repo), rule_r4(repo), rule_r5(repo), rule_r6(repo), rule_r7(repo), rule_r8(repo), rule_r9(repo), rule_r10(repo), rule_r11(repo), mr.expansion_uses_rule(repo, 'C18.R12', mr.verit_macros, floor=15), rule_r13(repo), rule_r14(repo)]
+    return [r1, r2, rule_r3(repo), rule_r4(repo), rule_r5(repo), rule_r6(repo), rule_r7(repo), rule_r8(repo), rule_r9(repo), rule_r10(repo), rule_r11(repo), mr.expansion_uses_rule(repo, 'C18.R12', mr.verit_macros, floor=15), rule_r13(repo), rule_r14(repo),
+            rule_r15(repo), rule_r16(repo), rule_r17(repo), rule_r18(repo), rule_r19(repo), rule_r20(repo)]
